@@ -21,6 +21,18 @@
    `gn_geometric_function_f`, where its latitude/longitude arguments come from: the ego vector, a LOCATION TABLE entry's
    vector, or the SO PV of the packet header.  After out-of-order receptions the table holds a newer vector than the
    header (annex C.2); `Props.C07.annexD_sender_vector_from_location_table_of_source` requires [ego, locT] in both.
+
+4. (round 6) The geometric function is a FUNCTION of its arguments.  For `gn_geometric_function_f` and the helpers it is
+   built from (`calculate_distance`, `rotate_to_area_frame`): every write of state that outlives the call (assignment /
+   augmented assignment / `del` to an attribute or subscript of `self`, `cls`, `Router` or a module global, `global` /
+   `nonlocal` statements, calls of mutating container methods or `setattr` on them), every READ of instance / class data
+   attributes (anything loaded from `self`/`cls`/`Router` that is not called as a method), and every decorator (a memoising
+   decorator is state too).  `Props.C07.geometric_function_is_stateless_of_source` requires all three lists to be empty
+   (`decide`): a "last projection" cache on the instance (seeded change C07-m12) re-opens the obligation.
+
+5. (round 6) The bit layout of the word `PAI | S | H` in `LongPositionVector.encode` / `encode_to_int`: for each of the two
+   functions the shift of the PAI flag, the width and shift of the two's complement speed field.  `Props.C07.
+   pai_bit_layout_of_source` requires (31, 15, 16) in both: a 16 bit speed field (seeded change C07-m11) overlaps the PAI bit.
 """
 from __future__ import annotations
 
@@ -175,9 +187,77 @@ def f_arg_origins(fn):
     return out
 
 
+F_FNS = ["gn_geometric_function_f", "calculate_distance", "rotate_to_area_frame"]
+MUTATORS = {"append", "extend", "insert", "update", "setdefault", "pop", "popitem", "clear", "add", "remove", "discard",
+            "__setitem__", "__setattr__", "appendleft", "sort", "reverse"}
+OWNERS = {"self", "cls", "Router"}
+
+
+def _root_name(x):
+    while isinstance(x, (ast.Attribute, ast.Subscript)):
+        x = x.value
+    return x.id if isinstance(x, ast.Name) else None
+
+
+def statefulness(fn):
+    """(writes, reads, decorators) of one function, as sorted lists of strings"""
+    writes, reads = set(), set()
+    params = {a.arg for a in fn.args.args + fn.args.kwonlyargs + fn.args.posonlyargs}
+    locals_ = set(params)
+    for x in ast.walk(fn):
+        if isinstance(x, ast.Name) and isinstance(x.ctx, ast.Store):
+            locals_.add(x.id)
+    called = {id(x.func) for x in ast.walk(fn) if isinstance(x, ast.Call)}
+    for x in ast.walk(fn):
+        if isinstance(x, (ast.Global, ast.Nonlocal)):
+            writes.update("global " + n for n in x.names)
+        elif isinstance(x, (ast.Attribute, ast.Subscript)) and isinstance(x.ctx, (ast.Store, ast.Del)):
+            root = _root_name(x)
+            if root in OWNERS or root not in locals_ or root in params:      # state reachable from outside the call
+                writes.add(ast.unparse(x))
+        elif isinstance(x, ast.Call):
+            n = _call_name(x)
+            if n in ("setattr", "delattr"):
+                writes.add(ast.unparse(x.func) + "(" + (ast.unparse(x.args[0]) if x.args else "") + ")")
+            elif n in MUTATORS and isinstance(x.func, ast.Attribute) and (_root_name(x.func.value) in OWNERS
+                                                                          or _root_name(x.func.value) not in locals_):
+                writes.add(ast.unparse(x.func))
+        if isinstance(x, ast.Attribute) and isinstance(x.ctx, ast.Load) and isinstance(x.value, ast.Name) \
+                and x.value.id in OWNERS and id(x) not in called:
+            reads.add(ast.unparse(x))
+    decos = sorted(ast.unparse(d) for d in fn.decorator_list if ast.unparse(d) not in ("staticmethod", "classmethod"))
+    return sorted(writes), sorted(reads), decos
+
+
+def lpv_layout():
+    """[(function, pai shift, speed bits, speed shift)] for LongPositionVector.encode / encode_to_int; -1 = not found"""
+    tree = ast.parse(src("geonet/position_vector.py"))
+    out = []
+    for n in tree.body:
+        if isinstance(n, ast.ClassDef) and n.name == "LongPositionVector":
+            for f in n.body:
+                if isinstance(f, ast.FunctionDef) and f.name in ("encode", "encode_to_int"):
+                    pai, bits, shift = -1, -1, -1
+                    for x in ast.walk(f):
+                        if isinstance(x, ast.BinOp) and isinstance(x.op, ast.LShift) and isinstance(x.right, ast.Constant):
+                            if _mentions(x.left, "pai"):
+                                pai = x.right.value if pai == -1 else -2
+                            call = x.left if isinstance(x.left, ast.Call) else None
+                            if call is not None and _call_name(call) == "_to_twos_complement" and call.args and _mentions(call.args[0], "s") \
+                                    and isinstance(call.args[0], ast.Attribute) and call.args[0].attr == "s":
+                                b = call.args[1].value if len(call.args) > 1 and isinstance(call.args[1], ast.Constant) else -1
+                                bits, shift = (b, x.right.value) if bits == -1 else (-2, -2)
+                    out.append((f.name, pai, bits, shift))
+    return sorted(out)
+
+
 def analyse():
     fns = _router_functions()
-    info = {"guards": {}, "loads": [], "gacDelegates": False, "fArgs": []}
+    info = {"guards": {}, "loads": [], "gacDelegates": False, "fArgs": [], "fState": [], "lpv": lpv_layout()}
+    for name in F_FNS:
+        if name in fns:
+            w, r, d = statefulness(fns[name])
+            info["fState"].append((name, w, r, d))
     for name in ("gn_forwarding_algorithm_selection", "gn_data_indicate_gac"):
         if name in fns:
             info["fArgs"].append((name, f_arg_origins(fns[name])))
@@ -224,6 +304,16 @@ def gen_area_facts():
              "self.ego_position_vector, `locT` = the position vector of a location table entry, `header` = the SO PV of the packet) -/\n"
              "def fArgOrigins : List (String × List String) := [" +
              ", ".join('("%s", [%s])' % (f, ", ".join('"%s"' % k for k in ks)) for f, ks in info["fArgs"]) + "]\n")
+    def _sl(xs):
+        return "[" + ", ".join('"%s"' % x.replace("\\", "\\\\").replace('"', "'") for x in xs) + "]"
+    body += ("/-- (function, writes of state that outlives the call, reads of instance/class data attributes, decorators) for the\n"
+             "geometric function and its helpers -/\n"
+             "def fState : List (String × List String × List String × List String) := [" +
+             ", ".join('("%s", %s, %s, %s)' % (f, _sl(w), _sl(r), _sl(d)) for f, w, r, d in info["fState"]) + "]\n")
+    body += ("/-- (function of LongPositionVector, shift of the PAI flag, width and shift of the two's complement speed field); a\n"
+             "negative number = not found / found twice -/\n"
+             "def lpvLayout : List (String × Int × Int × Int) := [" +
+             ", ".join('("%s", %d, %d, %d)' % t for t in info["lpv"]) + "]\n")
     body += "end Generated.AreaFacts\n"
     write_if_changed("AreaFacts.lean", body)
 
